@@ -31,7 +31,7 @@ UNITS = {
                "props": {"C03": ["CxVerif.Props.C03.Stream"], "C04": ["CxVerif.Props.C04.Stream"], "C16": ["CxVerif.Props.C16.ChaCha"]}},
     "ed25519": {"driver": "Ed25519", "harness": "ops_ed25519", "gens": "ed25519",
                 "props": {"C13": ["CxVerif.Props.C13.Ed25519"], "C14": ["CxVerif.Props.C14.Ed25519"], "C15": ["CxVerif.Props.C15.Ge", "CxVerif.Props.C15.GroupLaw"]}},
-    "argon2": {"driver": "Argon2", "harness": "ops_argon2", "gens": "argon2", "props": {"C11": ["CxVerif.Props.C11.Argon2"]}},
+    "argon2": {"driver": "Argon2", "harness": "ops_argon2", "gens": "argon2", "props": {"C11": ["CxVerif.Props.C11.Argon2", "CxVerif.Props.C11.Argon2Full"]}},
     "aead": {"driver": "Aead", "harness": "ops_aead", "gens": "aead",
              "props": {"C06": ["CxVerif.Props.C06.Aead"], "C07": ["CxVerif.Props.C07.Aead"], "C20": ["CxVerif.Props.C20.Aead"]}},
     "sha1ripemd": {"driver": "Sha1Ripemd", "harness": "ops_sha1ripemd", "gens": "sha1ripemd",
